@@ -38,6 +38,10 @@ func isBoolConstVal(v ssa.Value, want bool) bool {
 }
 
 func runC20(c *Checker) {
+	// "a fresh sample replaces a boosted value" and "one step per base-timeout interval" are about
+	// Boost and Reset running on different goroutines: the check-then-act inside Boost is atomic
+	// only under the booster's mutex (C18 RACE/LOCKORD, imported)
+	importLayers(c, "C18")
 	w := c.w
 	tm := w.Named("gbn.TimeoutManager")
 	tb := w.Named("gbn.TimeoutBooster")
